@@ -134,7 +134,8 @@ def oracle_case(cid, c, out):
             fails.append("applied data shrank at %s: %d -> %d" % (op, prev_len, jl))
         if f[0] in ("T", "P", "K"):
             st["snapop"] = st.get("snapop", 0) + 1
-        if f[0] in ("D", "X", "S", "R", "T", "P", "K") and (s != prev_s or jl != prev_len):
+        frozen = ("D", "X", "S", "R", "T", "P", "K") if kind == "A" else ("S", "R")   # kind B: T/P/K are whole rpcs that apply
+        if f[0] in frozen and (s != prev_s or jl != prev_len):
             fails.append("%s changed the replica state: synced %s -> %s, journal %d -> %d" % (op, prev_s, s, prev_len, jl))
         changed = [cl for cl in s if s[cl] != prev_s.get(cl)]
         if changed and jl - prev_len < len(changed):
